@@ -43,7 +43,7 @@ def run(ctx):
     counts["renew"] = int(counts["renew"] * 1.3)
     counts["iprpc"] = int(counts["iprpc"] * 1.7)
     fams = H.gen_and_design(ctx, counts, ctx.pick(("_sub", "_iprpc"), ("", "_sub", "_stake", "_iprpc")))
-    behs = H.flatten(fams)
+    behs = H.flatten(fams) + H.directed_common()
     H.common_cov(ctx, behs)
     rows = H.hunt(ctx, "Trace_LavaChain_C10.cfg", behs, "hist", _sig, _what)
     mx = {k: max(r["obl"][k] for r in rows) for k in ("ds", "iprpc", "sub", "subfut", "subtimer")}
